@@ -54,6 +54,9 @@ func c01Gen(r *rand.Rand, tier string) any {
 			if r.IntN(8) == 0 {
 				op.Dry = true
 			}
+			if r.IntN(9) == 0 {
+				op.CrashAt = 1 + r.IntN(2500) // the process dies at this step (if the build gets that far)
+			}
 			if r.IntN(5) == 0 {
 				// some bodies fail
 				for _, t := range shadow.closure(op.Label) {
@@ -112,7 +115,14 @@ func c01Exec(scAny any, c *simcheck.Ctx) *simcheck.Violation {
 		if op.Op == "build" && h.p.resolve(op.Label) == nil {
 			continue // the label no longer exists after simplification
 		}
-		res := h.build(i, op, h.pc, nil)
+		pc := h.pc
+		pc.CrashAt = op.CrashAt
+		res := h.build(i, op, pc, nil)
+		if res.Sim.Crashed {
+			c.St.Count("interrupted_builds", 1)
+			firstProcess = false
+			continue
+		}
 		if v := procFailure(res); v != nil {
 			if v.Class == simcheck.EngineError {
 				return v
@@ -173,9 +183,9 @@ func histSimplify(scAny any) []any {
 	}
 	// simplify build options
 	for i := range sc.Ops {
-		if sc.Ops[i].Always || sc.Ops[i].Dry || len(sc.Ops[i].Fail) > 0 || sc.Ops[i].Twice {
+		if sc.Ops[i].Always || sc.Ops[i].Dry || len(sc.Ops[i].Fail) > 0 || sc.Ops[i].Twice || sc.Ops[i].Reload || sc.Ops[i].Keep {
 			c := sc.clone()
-			c.Ops[i].Always, c.Ops[i].Dry, c.Ops[i].Fail, c.Ops[i].Twice = false, false, nil, false
+			c.Ops[i].Always, c.Ops[i].Dry, c.Ops[i].Fail, c.Ops[i].Twice, c.Ops[i].Reload, c.Ops[i].Keep = false, false, nil, false, false, false
 			out = append(out, c)
 		}
 	}
@@ -213,6 +223,9 @@ func histSimplify(scAny any) []any {
 			c := sc.clone()
 			ct := &c.Spec.Targets[i]
 			ct.Deps = append(ct.Deps[:k:k], ct.Deps[k+1:]...)
+			if k < len(ct.DepSpell) {
+				ct.DepSpell = append(ct.DepSpell[:k:k], ct.DepSpell[k+1:]...)
+			}
 			out = append(out, c)
 		}
 		for k := range t.Sources {
